@@ -89,6 +89,15 @@ func classifyPos(c *Ctx, p *tak.Position) {
 	if over, _ := p.GameOver(); over {
 		c.Count("pos.over")
 	}
+	ng := len(r.WG) + len(r.BG)
+	switch {
+	case ng > 2*p.Size():
+		c.Count("pos.groups>2size")
+	case len(r.WG) > p.Size() || len(r.BG) > p.Size():
+		c.Count("pos.onecolour.groups>size")
+	case ng > p.Size():
+		c.Count("pos.groups>size")
+	}
 }
 
 func genC01(c *Ctx) {
@@ -257,6 +266,8 @@ func emitC02(c *Ctx, p *tak.Position, dump bool) {
 	tok := encPos(p)
 	out := c.Emit("over " + tok)
 	c.Emit("sover " + tok)
+	c.Count("result=" + c.Emit("result "+tok))
+	c.Emit("sresult " + tok)
 	f := strings.Fields(out)
 	if len(f) >= 3 {
 		c.Count("over=" + f[0] + "." + f[1] + "." + f[2])
@@ -464,6 +475,23 @@ func flatBoard(r *RNG, size int) *tak.Position {
 	return fromCells(size, cells, 2+r.Intn(80), r.Chance(1, 2), r.Intn(3))
 }
 
+// wrapReserves takes a sampled position and replaces one side's (or both sides') reserve counters by a
+// pair stones, capstones > 0 with stones+capstones = 256: nothing in reserve is exhausted, but the byte sum
+// `stones+caps` is 0 (defect C02-reserve-wrap: GameOver tested that sum).
+func wrapReserves(r *RNG, p *tak.Position) *tak.Position {
+	raw := p.VerifRaw()
+	side := r.Intn(3)
+	if side != 1 {
+		raw.WS = byte(1 + r.Intn(255))
+		raw.WC = byte(256 - int(raw.WS))
+	}
+	if side != 0 {
+		raw.BS = byte(1 + r.Intn(255))
+		raw.BC = byte(256 - int(raw.BS))
+	}
+	return tak.VerifFromRaw(raw)
+}
+
 func genC02(c *Ctx) {
 	exhaustive3(c)
 	if c.Thorough() {
@@ -473,15 +501,22 @@ func genC02(c *Ctx) {
 	for k := 0; k < n; k++ {
 		var p *tak.Position
 		switch x := c.R.Intn(10); {
-		case x < 4:
+		case x < 3:
 			p = roadBoard(c.R, 3+c.R.Intn(6))
 			c.Count("src.roadboard")
-		case x < 6:
+		case x < 5:
 			p = flatBoard(c.R, 3+c.R.Intn(6))
 			c.Count("src.flatboard")
+		case x < 7:
+			p = groupsBoard(c.R, 3+c.R.Intn(6))
+			c.Count("src.groupsboard")
 		default:
 			p = randomPosition(c.R)
 			c.Count("src.random")
+		}
+		if c.R.Chance(1, 40) {
+			p = wrapReserves(c.R, p)
+			c.Count("src.+wrapped-reserves")
 		}
 		classifyPos(c, p)
 		emitC02(c, p, c.R.Chance(1, 4))
@@ -489,14 +524,14 @@ func genC02(c *Ctx) {
 }
 
 func genC03(c *Ctx) {
-	n := c.Scale(6000, 600000)
+	n := c.Scale(4000, 200000)
 	for k := 0; k < n; k++ {
 		p := randomPosition(c.R)
 		classifyPos(c, p)
 		tok := encPos(p)
 		out := c.Emit("allmoves " + tok)
 		c.Emit("slegal " + tok)
-		c.Count("nmoves~" + strconv.Itoa(len(strings.Fields(out))/32*32))
+		c.Count("nmoves>=" + bucket2(len(strings.Fields(out))))
 	}
 }
 
